@@ -20,7 +20,7 @@ ASSUMPTIONS = [
     'loop are C03/C05/C12/C13)',
     'file system and tempfile are in-memory stand-ins (open / os.path.exists / os.path.join / tempfile.TemporaryFile '
     'as seen by pynetdicom2, sopclass and applicationentity)',
-    'data set = symbolic bytes (<= 3) followed by a concrete tail of 0 / 40 / 90 bytes; pydicom encodes the concrete '
+    'data set = symbolic bytes (<= 3) followed by a concrete tail of 0 / 30 / 90 bytes; pydicom encodes the concrete '
     'Dataset object of the in-memory variant',
 ]
 
@@ -109,6 +109,10 @@ class FakeFS(object):
 
     def exists(self, name):
         return name in self.files
+
+    def listdir(self, path):
+        pre = path.rstrip('/') + '/'
+        return sorted(n[len(pre):] for n in self.files if n.startswith(pre) and '/' not in n[len(pre):])
 
     @staticmethod
     def join(a, b):
@@ -218,11 +222,11 @@ def check_received(pae, data, ts):
         and part10.text(meta[(2, 3)]) == INSTANCE and str(ctx.sop_class) == CT and ctx.id == 3
 
 
-@cond(bounds='store from a *file*: data set = first element header + 0..3 symbolic bytes + concrete tail of 0 / 40 / 90 bytes (one instance each), '
+@cond(bounds='store from a *file*: data set = first element header + 0..3 symbolic bytes + concrete tail of 0 / 30 / 90 bytes (one instance each; 8 + 2 + 30 = 40 bytes is exactly one full fragment at maximum length 46), '
              'maximum PDU length of the sender and of the receiver each from {16384, 46, 80} (symbolic: asymmetric '
              'pairs, multi-fragment transfers), message id symbolic, handler returns success / warning / failure (4 codes, symbolic choice) or raises '
              'EventHandlingError, negotiated transfer syntax by symbolic index over implicit LE / explicit LE / '
-             'explicit BE', family=lambda t: [dict(tl=l, tsi=s_) for l in ((0, 1, 2) if t == 'thorough' else (0, 2))
+             'explicit BE', family=lambda t: [dict(tl=l, tsi=s_) for l in (0, 1, 2)
                                                for s_ in (0, 1, 2)], timeout=300, thorough_timeout=1200)
 def store_file_end_to_end(d: bytes, pair: int, mid: int, sti: int, fail: bool) -> bool:
     """
@@ -236,7 +240,7 @@ def store_file_end_to_end(d: bytes, pair: int, mid: int, sti: int, fail: bool) -
         d = b'\x41\x42'                                  # long data sets: concrete content (cf. C07)
     # a data set starts with an element of a group >= 0008 (the sender looks at the first tag to find the end of the
     # file meta group); the bytes after that first element header are arbitrary
-    data = FIRST_ELEMENT + d + TAIL[:(0, 40, 90)[fam('tl')]]
+    data = FIRST_ELEMENT + d + TAIL[:(0, 30, 90)[fam('tl')]]
     ts = pydicom.uid.UID(TS_LIST[tsi])
     fs = FakeFS({'/in/x.dcm': HEADERS[tsi] + data})
     sopclass.open = fs.open
@@ -295,6 +299,45 @@ def store_dataset_end_to_end(pair: int, mid: int, sti: int, fail: bool) -> bool:
 
 
 # ------------------------------------------------------------------------------------------------
+# octets in, handler out: the receiving side is the real acceptor over the real provider, next to a second association
+# ------------------------------------------------------------------------------------------------
+
+@cond(bounds='receiving side = real AssociationAcceptor over a real stepped provider (octets in): association A negotiates '
+             'CT storage on context id 3 with transfer syntax implicit LE / explicit LE (symbolic), a second association '
+             'B on the same entity negotiates the same context id with the OTHER syntax before / between / after A\'s '
+             'steps (schedule word per instance); A\'s C-STORE (4 data bytes, message id 101) must reach the handler as a '
+             'readable file whose meta header names A\'s syntax and whose data set is exactly the bytes sent; B\'s likewise',
+      family={'sched': [0b01010101, 0b00110011, 0b00001111, 0b11110000]}, timeout=200)
+def store_next_to_other_association(a_tsf: bool, ending: int) -> bool:
+    """
+    pre: 0 <= ending <= 3
+    post: _
+    """
+    from vt.harness import c20
+    ending = pick(ending, 0, 3)
+    a_tsf = bool(pick(int(a_tsf), 0, 1))
+    pay_a, pay_b = b'\x08\x00\x05\x00', b'\x10\x00'
+    pa_ = ('CLIENT_A', 16384, 1 if a_tsf else 0, 100, pay_a, 0)
+    pb_ = ('CLIENT_B', 4096, 0 if a_tsf else 1, 200, pay_b, ending)
+    ta, tb, log = c20._live_run(pa_, pb_, fam('sched'), 0)
+    stores = [e for e in log if e[0] == 'store']
+    ok = len(stores) == 2 and ta[5] is None
+    ts_a, ts_b = (TS_LIST[1], TS_LIST[0]) if a_tsf else (TS_LIST[0], TS_LIST[1])
+    seen = []
+    for e in stores:
+        whole = e[4]
+        try:
+            meta, off = part10.read_meta(whole)
+        except part10.Part10Error:
+            return False
+        seen.append((whole[off:], part10.text(meta[(2, 0x10)]), e[3], part10.text(meta[(2, 3)])))
+    ok = ok and (pay_a, ts_a, ts_a, '1.2.3.3') in seen and (pay_b, ts_b, ts_b, '1.2.3.3') in seen
+    # the sender of A got the status its own handler call returned, on its own association
+    deep(ok and ending == 2)
+    return ok
+
+
+# ------------------------------------------------------------------------------------------------
 # directory-backed storage
 # ------------------------------------------------------------------------------------------------
 
@@ -303,19 +346,32 @@ class CmdSet(object):
     AffectedSOPInstanceUID = INSTANCE
 
 
-@cond(bounds='directory-backed storage entity: which of <uid>.dcm, <uid>.dcm_1, <uid>.dcm_1_2 already exist (three '
-             'symbolic booleans, each with its own content), 1..3 stores of the same instance UID in a row (symbolic), '
-             'each with its own data', timeout=300)
-def storage_directory(e0: bool, e1: bool, e2: bool, n: int) -> bool:
+DIR_SUFFIXES = ['', '_1', '_1_2', '_2', '_3', '_1_2_3']
+
+
+@cond(bounds='directory-backed storage entity: which of <uid>.dcm, .dcm_1, .dcm_1_2, .dcm_2, .dcm_3, .dcm_1_2_3 already '
+             'exist (six symbolic booleans = every subset, incl. gaps left by deleted duplicates; each file with its '
+             'own content; an unrelated instance\'s file is always there), 1..3 stores of the same instance UID in a '
+             'row (symbolic), each with its own data', timeout=300)
+def storage_directory(e0: bool, e1: bool, e2: bool, e3: bool, e4: bool, e5: bool, n: int) -> bool:
     """
     pre: 1 <= n <= 3
     post: _
     """
     n = pick(n, 1, 3)
+    es = [bool(pick(int(e), 0, 1)) for e in (e0, e1, e2, e3, e4, e5)]
+    from vt import sim
+    with sim._no_tracing():               # everything is concrete from here on (the solver chose subset and count)
+        ok = _storage_directory(es, n)
+    deep(ok and es[0] and es[1] and not es[2] and es[3] and n == 2)
+    return ok
+
+
+def _storage_directory(es, n):
     base = '/store/%s.dcm' % INSTANCE
-    names = [base, base + '_1', base + '_1_2']
-    before = {}
-    for i, (nm, e) in enumerate(zip(names, (e0, e1, e2))):
+    names = [base + sfx for sfx in DIR_SUFFIXES]
+    before = {'/store/1.2.3.dcm': b'UNRELATED', '/store/%s.dcm.bak' % INSTANCE: b'BACKUP'}
+    for i, (nm, e) in enumerate(zip(names, es)):
         if e:
             before[nm] = b'OLD-CONTENT-%d' % i
     fs = FakeFS(before)
@@ -344,15 +400,14 @@ def storage_directory(e0: bool, e1: bool, e2: bool, n: int) -> bool:
     for nm, content in before.items():
         ok = ok and fs.files.get(nm) == content
     ok = ok and all(t not in before for t in fs.truncated)
-    deep(ok and e0 and e1 and not e2 and n == 2)
     return ok
 
 
 def explain(cname, args, famv):
     if cname == 'storage_directory':
         base = '/store/%s.dcm' % INSTANCE
-        names = [base, base + '_1', base + '_1_2']
-        before = {nm: b'OLD' for nm, e in zip(names, (args['e0'], args['e1'], args['e2'])) if e}
+        names = [base + sfx for sfx in DIR_SUFFIXES]
+        before = {nm: b'OLD' for nm, e in zip(names, [args['e%d' % i] for i in range(6)]) if e}
         fs = FakeFS(before)
         pynetdicom2.os = fs
         pynetdicom2.open = fs.open
